@@ -64,9 +64,9 @@ func c10Groups(tier string) []core.Group {
 }
 
 func c10Shapes(tier string) [][]int {
-	s := [][]int{{3}, {2, 3}, {3, 1}, {1, 3}, {2, 3, 2}, {2, 1, 3}, {2, 2, 2, 3}}
+	s := [][]int{{3}, {2, 3}, {3, 1}, {1, 3}, {2, 3, 2}, {2, 1, 3}, {1, 3, 2}, {3, 2, 1}, {2, 2, 2, 3}}
 	if tier == "thorough" {
-		s = append(s, []int{1}, []int{4, 2}, []int{1, 1, 3}, []int{3, 2, 1}, []int{2, 3, 1, 2})
+		s = append(s, []int{1}, []int{4, 2}, []int{1, 1, 3}, []int{1, 2, 3, 2}, []int{2, 3, 1, 2}, []int{2, 3, 2, 1})
 	}
 	return s
 }
